@@ -113,7 +113,7 @@ theorem inv_doLogin (c : Config) (st : State) (h : Inv st) (hc : st.conn = .conn
   · exact h
   · exact inv_closeServer _ _ h
 
-theorem inv_reconnect (c : Config) (st : State) (h : Inv st) (hs : st.started = true) :
+theorem inv_reconnect (c : Config) (st : State) (_h : Inv st) (hs : st.started = true) :
     Inv (reconnect c st).1 := by
   unfold reconnect
   split
@@ -677,10 +677,10 @@ theorem reset_step (c : Config) (st : State) (op : Op)
     simp only [step] at h ⊢; split at h
     · rename_i hc; rw [if_pos hc]
       unfold doConnect at h ⊢
-      split
-      · rename_i hu; simp [hu, obsClosed] at h
-      · rename_i hu
-        simp only [hu, obsClosed_append] at h
+      by_cases hu : st.srvUp = true
+      · rw [if_pos hu] at h; simp [obsClosed] at h
+      · rw [if_neg hu] at h ⊢
+        simp only [obsClosed_append] at h
         apply reset_closeServer
         simpa [obsClosed] using h
     · simp [obsClosed] at h
@@ -704,7 +704,8 @@ def Quiet (st : State) : Prop :=
   st.searchTimers = 0 ∧ st.wishlistTimers = 0 ∧ st.pp = [] ∧ st.conn ≠ .connected ∧ st.listening = 0 ∧
   st.session = false ∧ st.started = true ∧ st.stopped = true ∧ st.sr = [] ∧ st.orphans = []
 
-theorem quiet_alive (c : Config) (st : State) (h : Quiet st) : alive c st = [] ∧ openSockets st = 0 := by
+theorem quiet_alive (c : Config) (st : State) (h : Quiet st) :
+    alive c st = List.replicate st.heldReaders .reader ∧ openSockets st = 0 := by
   obtain ⟨h1, h2, h3, h4, h5, h6, h7, h8, h9, h10, h11, h12, h13, h14, h15, _, _, _, h19, h20⟩ := h
   simp [alive, raceChildren, openSockets, h1, h2, h3, h4, h5, h6, h7, h8, h9, h10, h11, h12, h13, h14, h15, h19, h20]
 
@@ -723,7 +724,7 @@ theorem quiet_doStop (c : Config) (st : State) (h : Inv st) (hs : st.started = t
   have c12 := covered_all .searchReply
   have c13 := covered_all .directConnect
   have c14 := covered_all .indirectConnect
-  obtain ⟨h1, h2, h3, h4⟩ := h
+  obtain ⟨h1, h2, h3, h4, _, _⟩ := h
   unfold doStop closeServer
   simp only [c1, c2, c3, c4, c5, c6, c7, c8, c9, c10, c11, c12, c13, c14]
   by_cases hc : st.conn = .closed ∨ st.conn = .closing
@@ -733,14 +734,15 @@ theorem quiet_doStop (c : Config) (st : State) (h : Inv st) (hs : st.started = t
   · simp [Quiet, hc, hs]
 
 theorem quiet_step (c : Config) (st : State) (op : Op) (h : Quiet st) :
-    Quiet (step c st op).1 ∧ ∀ o ∈ (step c st op).2, o = .invalid ∨ o = .refused := by
+    Quiet (step c st op).1 ∧ (∀ o ∈ (step c st op).2, o = .invalid ∨ o = .refused) ∧
+    (step c st op).1.heldReaders ≤ st.heldReaders := by
   obtain ⟨h1, h2, h3, h4, h5, h6, h7, h8, h9, h10, h11, h12, h13, h14, h15, h16, h17, h18, h19, h20⟩ := h
   have hq : Quiet st :=
     ⟨h1, h2, h3, h4, h5, h6, h7, h8, h9, h10, h11, h12, h13, h14, h15, h16, h17, h18, h19, h20⟩
   cases op with
   | start => simp [step, h17, hq]
   | login => simp [step, h14, hq]
-  | loginCut j d res ul => simp [step, h14, hq]
+  | loginBreak pos d b => simp [step, h14, hq]
   | exec => simp [step, h16, hq]
   | populate => simp [step, h3, hq]
   | search => simp [step, h18, hq]
@@ -748,16 +750,24 @@ theorem quiet_step (c : Config) (st : State) (op : Op) (h : Quiet st) :
   | potentialParents => simp [step, h3, hq]
   | searchRequest => simp [step, h3, hq]
   | loss r => simp [step, h14, hq]
+  | lossHeld r => simp [step, h14, hq]
+  | release =>
+    simp only [step]
+    split
+    · exact ⟨by simpa [Quiet] using hq, by simp, by simp [State.heldReaders]⟩
+    · exact ⟨hq, by simp, Nat.le_refl _⟩
+  | connect => simp [step, h18, hq]
   | tick =>
     simp only [step, ageAll, h13, h19, h20, agePP, tickWd, h1, List.filter_nil, List.map_nil]
-    refine ⟨?_, by simp⟩
+    refine ⟨?_, by simp, Nat.le_refl _⟩
     exact ⟨rfl, h2, h3, h4, h5, h6, h7, h8, h9, h10, h11, h12, rfl, h14, h15, h16, h17, h18, rfl, rfl⟩
-  | setSrvUp b => simp only [step]; exact ⟨by simpa [Quiet] using hq, by simp⟩
-  | setSrvReply r => simp only [step]; exact ⟨by simpa [Quiet] using hq, by simp⟩
+  | setSrvUp b => simp only [step]; exact ⟨by simpa [Quiet] using hq, by simp, Nat.le_refl _⟩
+  | setSrvReply r => simp only [step]; exact ⟨by simpa [Quiet] using hq, by simp, Nat.le_refl _⟩
   | stop => simp [step, h18, hq]
 
 theorem quiet_run (c : Config) (ops : List Op) : ∀ st, Quiet st →
-    Quiet (run c st ops).1 ∧ ∀ o ∈ (run c st ops).2, o = .invalid ∨ o = .refused := by
+    Quiet (run c st ops).1 ∧ (∀ o ∈ (run c st ops).2, o = .invalid ∨ o = .refused) ∧
+    (run c st ops).1.heldReaders ≤ st.heldReaders := by
   induction ops with
   | nil => intro st h; simp [run, h]
   | cons op ops ih =>
@@ -765,11 +775,161 @@ theorem quiet_run (c : Config) (ops : List Op) : ∀ st, Quiet st →
     have h1 := quiet_step c st op h
     have h2 := ih _ h1.1
     simp only [run]
-    refine ⟨h2.1, ?_⟩
+    refine ⟨h2.1, ?_, Nat.le_trans h2.2.2 h1.2.2⟩
     intro o ho
     rcases List.mem_append.mp ho with ho | ho
-    · exact h1.2 o ho
-    · exact h2.2 o ho
+    · exact h1.2.1 o ho
+    · exact h2.2.1 o ho
+
+/-! ### `stopped` is set by `stop()` only, wherever it is called — also inside a login in progress -/
+
+theorem stopped_closeServer (r : Reason) (st : State) : (closeServer r st).1.stopped = st.stopped := by
+  unfold closeServer; split <;> rfl
+
+theorem stopped_doLogin (c : Config) (st : State) : (doLogin c st).1.stopped = st.stopped := by
+  unfold doLogin; split
+  · rfl
+  · rfl
+  · rfl
+  · exact stopped_closeServer _ _
+
+theorem stopped_reconnect (c : Config) (st : State) : (reconnect c st).1.stopped = st.stopped := by
+  unfold reconnect; split
+  · split
+    · exact stopped_doLogin _ _
+    · rfl
+  · exact stopped_closeServer _ _
+
+theorem stopped_tickWd (c : Config) (st : State) : (tickWd c st).1.stopped = st.stopped := by
+  unfold tickWd; split
+  · rfl
+  · split <;> rfl
+  · split
+    · exact stopped_reconnect _ _
+    · rfl
+
+theorem stopped_doStart (c : Config) (st : State) : (doStart c st).1.stopped = st.stopped := by
+  unfold doStart; simp only []; split
+  · rfl
+  · split
+    · rfl
+    · exact stopped_closeServer _ _
+
+theorem stopped_doConnect (c : Config) (st : State) : (doConnect c st).1.stopped = st.stopped := by
+  unfold doConnect; split
+  · rfl
+  · exact stopped_closeServer _ _
+
+/-- an interrupted login ends quiet when the interruption is `stop()`, and is not stopped otherwise -/
+theorem stopquiet_applyBreak (c : Config) (b : Break) (st : State) (h : Inv st) (hs : st.started = true)
+    (hp : st.stopped = false) :
+    (applyBreak c b st).1.stopped = true → Quiet (applyBreak c b st).1 := by
+  cases b with
+  | writeFail => intro hx; simp [applyBreak, stopped_closeServer, hp] at hx
+  | close r => intro hx; simp [applyBreak, stopped_closeServer, hp] at hx
+  | stop => intro _; exact quiet_doStop c st h hs
+  | srvEof => intro hx; simp [applyBreak, stopped_closeServer, hp] at hx
+
+theorem stopquiet_doLoginBreak (c : Config) (pos : Option Nat) (d : Nat) (b : Break) (st : State) (h : Inv st)
+    (hc : st.conn = .connected) (hp : st.stopped = false) :
+    (doLoginBreak c pos d b st).1.stopped = true → Quiet (doLoginBreak c pos d b st).1 := by
+  have hs : st.started = true := h.2.2.2.2.1 hc
+  have hdone : ({ (doLogin c { st with srvReply := .accepted }).1 with srvReply := st.srvReply } : State).stopped
+      = false := by
+    show (doLogin c { st with srvReply := .accepted }).1.stopped = false
+    rw [stopped_doLogin]; exact hp
+  have hdstart : ({ (doLogin c { st with srvReply := .accepted }).1 with srvReply := st.srvReply } : State).started
+      = true := by
+    have := inv_loginDone c st h hc
+    by_cases hcc : ({ (doLogin c { st with srvReply := .accepted }).1 with srvReply := st.srvReply } : State).conn
+        = .connected
+    · exact this.2.2.2.2.1 hcc
+    · -- the login closed the connection: impossible for an accepted login, but `started` is kept anyway
+      show (doLogin c { st with srvReply := .accepted }).1.started = true
+      simp [doLogin, hs]
+  unfold doLoginBreak
+  cases pos with
+  | none => exact stopquiet_applyBreak c b st h hs hp
+  | some j =>
+    simp only []
+    split
+    · cases b with
+      | writeFail => intro hx; rw [hdone] at hx; cases hx
+      | close r => exact stopquiet_applyBreak c _ _ (inv_loginDone c st h hc) hdstart hdone
+      | stop => exact stopquiet_applyBreak c _ _ (inv_loginDone c st h hc) hdstart hdone
+      | srvEof => exact stopquiet_applyBreak c _ _ (inv_loginDone c st h hc) hdstart hdone
+    · cases b with
+      | writeFail => exact stopquiet_applyBreak c _ _ (inv_inBurst st h hc) hs hp
+      | close r => exact stopquiet_applyBreak c _ _ (inv_inBurst st h hc) hs hp
+      | stop => exact stopquiet_applyBreak c _ _ (inv_inBurst st h hc) hs hp
+      | srvEof => intro hx; rw [stopped_closeServer, hdone] at hx; cases hx
+
+/-- INVARIANT: whenever `stop()` has been called — at a quiescent point or inside a login in progress — nothing of
+    the library is left. -/
+def StopInv (st : State) : Prop := st.stopped = true → Quiet st
+
+theorem stopinv_init : StopInv init := by
+  intro h; simp [init] at h
+
+theorem stopinv_step (c : Config) (st : State) (op : Op) (hi : Inv st) (h : StopInv st) :
+    StopInv (step c st op).1 := by
+  by_cases hp : st.stopped = true
+  · intro _; exact (quiet_step c st op (h hp)).1
+  · have hp' : st.stopped = false := by simpa using hp
+    intro hx
+    cases op with
+    | start =>
+      simp only [step] at hx ⊢; split at hx
+      · rw [hp'] at hx; cases hx
+      · rw [stopped_doStart, hp'] at hx; cases hx
+    | login =>
+      simp only [step] at hx ⊢; split at hx
+      · rw [stopped_doLogin, hp'] at hx; cases hx
+      · rw [hp'] at hx; cases hx
+    | loginBreak pos d b =>
+      simp only [step] at hx ⊢; split at hx
+      · rename_i hc; rw [if_pos hc]
+        exact stopquiet_doLoginBreak c pos d b st hi hc.1 hp' hx
+      · rw [hp'] at hx; cases hx
+    | exec => simp only [step] at hx; split at hx <;> (rw [hp'] at hx; cases hx)
+    | populate => simp only [step] at hx; split at hx <;> (simp [hp'] at hx)
+    | search => simp only [step] at hx; split at hx <;> (simp [hp'] at hx)
+    | wishlistInterval => simp only [step] at hx; split at hx <;> (simp [hp'] at hx)
+    | potentialParents => simp only [step] at hx; split at hx <;> (simp [hp'] at hx)
+    | searchRequest => simp only [step] at hx; split at hx <;> (simp [hp'] at hx)
+    | loss r =>
+      simp only [step] at hx; split at hx
+      · rw [stopped_closeServer, hp'] at hx; cases hx
+      · rw [hp'] at hx; cases hx
+    | lossHeld r =>
+      simp only [step] at hx; split at hx
+      · have : (closeServer r st).1.stopped = true := hx
+        rw [stopped_closeServer, hp'] at this; cases this
+      · rw [hp'] at hx; cases hx
+    | release => simp only [step] at hx; split at hx <;> (simp [hp'] at hx)
+    | connect =>
+      simp only [step] at hx; split at hx
+      · rw [stopped_doConnect, hp'] at hx; cases hx
+      · rw [hp'] at hx; cases hx
+    | tick =>
+      simp only [step] at hx
+      rw [stopped_tickWd] at hx
+      have : (ageAll st).stopped = st.stopped := rfl
+      rw [this, hp'] at hx; cases hx
+    | setSrvUp b => simp [step, hp'] at hx
+    | setSrvReply r => simp [step, hp'] at hx
+    | stop =>
+      simp only [step] at hx ⊢; split at hx
+      · rename_i hc; rw [if_pos hc]; exact quiet_doStop c st hi hc.1
+      · rw [hp'] at hx; cases hx
+
+theorem stopinv_run (c : Config) (ops : List Op) : ∀ st, Inv st → StopInv st → StopInv (run c st ops).1 := by
+  induction ops with
+  | nil => intro st _ h; exact h
+  | cons op ops ih =>
+    intro st hi h
+    simp only [run]
+    exact ih _ (inv_step c st op hi) (stopinv_step c st op hi h)
 
 /-! ## the reconnect watchdog -/
 
@@ -916,6 +1076,49 @@ theorem winv_doStop (c : Config) (st : State) (h : WInv c st) : WInv c (doStop c
   unfold doStop
   simpa [WInv] using hB
 
+theorem winv_applyBreak (c : Config) (b : Break) (st : State) (h : WInv c st) : WInv c (applyBreak c b st).1 := by
+  cases b with
+  | writeFail => exact winv_closeServer' c _ st h.1
+  | close r => exact winv_closeServer' c _ st h.1
+  | stop => exact winv_doStop c st h
+  | srvEof => exact winv_closeServer' c _ st h.1
+
+theorem winv_loginDone (c : Config) (st : State) (h : WInv c st) :
+    WInv c { (doLogin c { st with srvReply := .accepted }).1 with srvReply := st.srvReply } := by
+  have := winv_doLogin c { st with srvReply := .accepted } (by simpa [WInv] using h)
+  simpa [WInv] using this
+
+theorem winv_doLoginBreak (c : Config) (pos : Option Nat) (d : Nat) (b : Break) (st : State) (h : WInv c st) :
+    WInv c (doLoginBreak c pos d b st).1 := by
+  have hb : WInv c { st with session := true, users := true } := by simpa [WInv] using h
+  unfold doLoginBreak
+  cases pos with
+  | none => exact winv_applyBreak c b st h
+  | some j =>
+    simp only []
+    split
+    · cases b with
+      | writeFail => exact winv_loginDone c st h
+      | close r => exact winv_applyBreak c _ _ (winv_loginDone c st h)
+      | stop => exact winv_applyBreak c _ _ (winv_loginDone c st h)
+      | srvEof => exact winv_applyBreak c _ _ (winv_loginDone c st h)
+    · cases b with
+      | writeFail => exact winv_applyBreak c _ _ hb
+      | close r => exact winv_applyBreak c _ _ hb
+      | stop => exact winv_applyBreak c _ _ hb
+      | srvEof => exact winv_closeServer' c _ _ (winv_loginDone c st h).1
+
+theorem winv_doConnect (c : Config) (st : State) (h : WInv c st) : WInv c (doConnect c st).1 := by
+  unfold doConnect
+  split
+  · refine ⟨?_, ?_⟩
+    · intro hw
+      by_cases ha : c.reconnectAuto = true
+      · exact ha
+      · simp [ha] at hw; exact h.1 hw
+    · intro _ ha; simp [ha]
+  · exact winv_closeServer' c _ _ h.1
+
 theorem winv_step (c : Config) (st : State) (op : Op) (h : WInv c st) (hi : Inv st) :
     WInv c (step c st op).1 := by
   cases op with
@@ -925,14 +1128,9 @@ theorem winv_step (c : Config) (st : State) (op : Op) (h : WInv c st) (hi : Inv 
   | login => simp only [step]; split
              · exact winv_doLogin c st h
              · exact h
-  | loginCut j d res ul =>
+  | loginBreak pos d b =>
     simp only [step]; split
-    · unfold doLoginCut
-      simp only []
-      split
-      · exact winv_doLogin c _ (by simpa [WInv] using h)
-      · have := winv_closeServer' c .writeError { st with session := true, users := true } h.1
-        simpa [WInv] using this
+    · exact winv_doLoginBreak c pos d b st h
     · exact h
   | exec => simp only [step]; split <;> exact h
   | populate => simp only [step]; split
@@ -953,6 +1151,18 @@ theorem winv_step (c : Config) (st : State) (op : Op) (h : WInv c st) (hi : Inv 
   | loss r => simp only [step]; split
               · exact winv_closeServer' c r st h.1
               · exact h
+  | lossHeld r =>
+    simp only [step]; split
+    · have := winv_closeServer' c r st h.1
+      simpa [WInv] using this
+    · exact h
+  | release => simp only [step]; split
+               · simpa [WInv] using h
+               · exact h
+  | connect =>
+    simp only [step]; split
+    · exact winv_doConnect c st h
+    · exact h
   | tick => simp only [step]
             exact winv_tickWd c _ (by simpa [WInv, ageAll] using h) (by simpa [Inv, ageAll] using hi)
   | setSrvUp b => simpa [step, WInv] using h
@@ -1037,5 +1247,61 @@ theorem closeServer_connected (r : Reason) (st : State) (hc : st.conn = .connect
     (closeServer r st).1.srvUp = st.srvUp ∧
     Obs.attempt ∉ (closeServer r st).2 ∧ Obs.loginSent ∉ (closeServer r st).2 := by
   simp [closeServer, hc]
+
+theorem lossHeld_ticks_obs (c : Config) (st : State) (r : Reason) (n : Nat) (hc : st.conn = .connected)
+    (hv : r ≠ .connectFailed) (hr : (r = .eof ∨ r = .readError) → st.reader = true) :
+    (run c st (.lossHeld r :: List.replicate n .tick)).2 =
+      (closeServer r st).2 ++
+        (run c { (closeServer r st).1 with held := decide (r = .eof ∨ r = .readError) :: (closeServer r st).1.held }
+          (List.replicate n .tick)).2 := by
+  simp only [run, step]
+  rw [if_pos ⟨hc, hv, hr⟩]
+
+/-- The reconnect law for any state `s1` left by a loss with reason `r` of the connected state `s0`: after the
+    reconnect delay (+ one poll) a new connection has been attempted iff `reconnect.auto` ∧ `r ∉ {REQUESTED, EOF}` ∧
+    credentials, and a new Login was sent iff moreover the server accepts the connection. -/
+theorem reconnect_law (c : Config) (s0 s1 : State) (o1 : List Obs) (r : Reason)
+    (hw : WInv c s0) (hc : s0.conn = .connected)
+    (k1 : s1.conn = .closed) (k2 : s1.wd = (if r = .requested ∨ r = .eof then .off else s0.wd))
+    (k3 : s1.srvUp = s0.srvUp) (k4 : Obs.attempt ∉ o1) (k5 : Obs.loginSent ∉ o1) :
+    (Obs.attempt ∈ o1 ++ (run c s1 (List.replicate (reconnectTicks + 1) .tick)).2 ↔
+      (c.reconnectAuto = true ∧ r ≠ .requested ∧ r ≠ .eof ∧ c.credsOk = true)) ∧
+    (Obs.loginSent ∈ o1 ++ (run c s1 (List.replicate (reconnectTicks + 1) .tick)).2 ↔
+      (c.reconnectAuto = true ∧ r ≠ .requested ∧ r ≠ .eof ∧ c.credsOk = true ∧ s0.srvUp = true)) := by
+  by_cases cond : c.reconnectAuto = true ∧ r ≠ .requested ∧ r ≠ .eof ∧ c.credsOk = true
+  · obtain ⟨ha, hq, he, hk⟩ := cond
+    have hidle : s1.wd = .idle := by
+      rw [k2]; simp [hq, he, hw.2 hc ha]
+    obtain ⟨s2, hs2, hs3⟩ := idle_reconnect_obs c s1 hidle k1 hk
+    have hro := reconnect_obs_attempt c s2
+    rw [hs2]
+    refine ⟨?_, ?_⟩
+    · simp [ha, hq, he, hk, hro.1]
+    · simp only [List.mem_append, k5, false_or, hro.2, hs3, k3]
+      simp [ha, hq, he, hk]
+  · have hquiet : (run c s1 (List.replicate (reconnectTicks + 1) .tick)).2 = [] := by
+      by_cases ha : c.reconnectAuto = true
+      · by_cases hre : r = .requested ∨ r = .eof
+        · apply off_run
+          · intro op hop; simp [List.mem_replicate] at hop; subst hop; rfl
+          · rw [k2]; simp [hre]
+        · have hk : c.credsOk = false := by
+            cases hcr : c.credsOk with
+            | false => rfl
+            | true => exact absurd ⟨ha, fun e => hre (Or.inl e), fun e => hre (Or.inr e), hcr⟩ cond
+          apply nocreds_run c hk
+          rw [k2]; simp [hre, hw.2 hc ha]
+      · have hoff : s0.wd = .off := by
+          cases hwd : s0.wd with
+          | off => rfl
+          | idle => exact absurd (hw.1 (by simp [hwd])) ha
+          | sleeping n => exact absurd (hw.1 (by simp [hwd])) ha
+        apply off_run
+        · intro op hop; simp [List.mem_replicate] at hop; subst hop; rfl
+        · rw [k2, hoff]; simp
+    rw [hquiet]
+    simp only [List.append_nil]
+    refine ⟨⟨fun h => absurd h k4, fun h => absurd h cond⟩,
+            ⟨fun h => absurd h k5, fun h => absurd ⟨h.1, h.2.1, h.2.2.1, h.2.2.2.1⟩ cond⟩⟩
 
 end AioslskVerif.Session
